@@ -39,8 +39,8 @@ def crit(x):
     return x > 0.25
 
 
-def make(kind, dt, tau, amp, duration, inplace):
-    kw = dict(duration=duration, inclusive=False, inplace=inplace)
+def make(kind, dt, tau, amp, duration, inplace, inclusive=False):
+    kw = dict(duration=duration, inclusive=inclusive, inplace=inplace)
     if kind == "nearest":
         return NearestTraceReducer(dt, tau, amp, 1.0, **kw)
     if kind == "cumulative":
@@ -137,9 +137,9 @@ def same(a, b):
     return abs(a - b) <= 1e-5 * max(1.0, abs(b))
 
 
-def run_sequence(kind, dt0, tau, amp, duration, inplace, seq):
+def run_sequence(kind, dt0, tau, amp, duration, inplace, seq, inclusive=False):
     """returns (reducer, events since clear, dt now)"""
-    r = make(kind, dt0, tau, amp, duration, inplace)
+    r = make(kind, dt0, tau, amp, duration, inplace, inclusive)
     L = letters_for(kind)
     events = []
     now = 0.0
@@ -163,10 +163,10 @@ def run_sequence(kind, dt0, tau, amp, duration, inplace, seq):
     return r, events, dt
 
 
-def check_node(tally, cfg, kind, dt0, tau, amp, duration, inplace, seq):
+def check_node(tally, cfg, kind, dt0, tau, amp, duration, inplace, seq, inclusive=False):
     case = {**cfg, "sequence": [list(o) for o in seq]}
     try:
-        r, events, dt = run_sequence(kind, dt0, tau, amp, duration, inplace, seq)
+        r, events, dt = run_sequence(kind, dt0, tau, amp, duration, inplace, seq, inclusive)
     except Exception as ex:
         tally.violation(f"exception:{kind}:{seq[-1][0]}:{type(ex).__name__}", case, f"{type(ex).__name__}: {ex}", None, repr(ex))
         return False
@@ -191,7 +191,7 @@ def check_node(tally, cfg, kind, dt0, tau, amp, duration, inplace, seq):
             tally.violation(f"latest:{kind}", case, f"latest[{e}]={float(lt[e])}, closed form {series[e][-1]}", series[e][-1], float(lt[e]))
             ok = False
     # dump: newest first
-    N = max(math.ceil(duration / dt), 1)
+    N = max(math.ceil(duration / dt) + (1 if inclusive else 0), 1)
     dp = r.dump()
     if dp is None or dp.shape[0] != N:
         tally.violation(f"dump-shape:{kind}", case, f"dump {None if dp is None else tuple(dp.shape)}, record size {N}")
@@ -239,10 +239,10 @@ def check_node(tally, cfg, kind, dt0, tau, amp, duration, inplace, seq):
     return ok
 
 
-def shard(kind, dt0, tau, amp, durk, inplace, depth):
+def shard(kind, dt0, tau, amp, durk, inplace, depth, inclusive=False):
     tally = Tally()
     duration = durk * dt0
-    cfg = {"reducer": kind, "dt": dt0, "tau": tau, "amplitude": amp, "duration": duration, "inplace": inplace}
+    cfg = {"reducer": kind, "dt": dt0, "tau": tau, "amplitude": amp, "duration": duration, "inplace": inplace, "inclusive": inclusive}
     ops = [("obs", i) for i in range(4)] + [("clear", True), ("clear", False)]
     if durk == 0:
         ops.append(("dt", 0.5 if dt0 == 1.0 else 1.0))
@@ -254,7 +254,7 @@ def shard(kind, dt0, tau, amp, durk, inplace, depth):
                 # two clears in a row or a clear first add nothing new below depth; keep them anyway up to depth 2
                 seq = h + (op,)
                 tally.add("steps")
-                if check_node(tally, cfg, kind, dt0, tau, amp, duration, inplace, seq):
+                if check_node(tally, cfg, kind, dt0, tau, amp, duration, inplace, seq, inclusive):
                     nxt.append(seq)
                 nobs = sum(1 for o in seq if o[0] == "obs")
                 if nobs >= 2:
@@ -325,6 +325,9 @@ def run(rep):
                         if quick and inplace and durk == 2.5:
                             continue
                         jobs.append((shard, (kind, dt0, tau, amp, durk, inplace, depth)))
+                        if durk == 2 and not inplace and dt0 == 1.0:
+                            # inclusive records (what the trainers use): one more slot, views up to the full duration
+                            jobs.append((shard, (kind, dt0, tau, amp, durk, inplace, depth - 1, True)))
     tally = run_shards(jobs, seed=rep.seed)
     rep.tally.merge(tally)
     c = tally.counts
@@ -354,7 +357,7 @@ def replay(case):
     if "sequence" not in case:
         return {"violations": [], "note": "functional case; see record"}
     seq = [tuple(o) for o in case["sequence"]]
-    r, events, dt = run_sequence(case["reducer"], case["dt"], case["tau"], case["amplitude"], case["duration"], case["inplace"], seq)
+    r, events, dt = run_sequence(case["reducer"], case["dt"], case["tau"], case["amplitude"], case["duration"], case["inplace"], seq, case.get("inclusive", False))
     out = {"violations": [], "peek": None if r.peek() is None else r.peek().tolist(), "dump": None if r.dump() is None else r.dump().tolist()}
     if "time" in case and not isinstance(case["time"], list):
         out["view"] = r.view(case["time"]).tolist()
